@@ -1048,7 +1048,9 @@ class Exec:
                 sel_b = lambda idx: b.sel(*idx)
                 shape = b.shape
             idx = [z3.Int(fresh_name("i")) for _ in shape]
+            before = len(E.PENDING_FACTS)
             body = fn(sel_a(idx), sel_b(idx))
+            self._quantify_pending(before, idx, shape)
             k = kind or kind_of(body)
             r = Arr(z3.Lambda(idx, to_z3(body, k)), shape, k)
             r.ghost = _merge_ghost(a, b)
@@ -1058,6 +1060,15 @@ class Exec:
             r.ghost = _merge_ghost(a, b)
             return r
         return fn(a, b)
+
+    def _quantify_pending(self, before, idx, shape):
+        """facts produced by term constructors (fmod / sqrt / trig axiom instances) while building an elementwise body mention the
+        bound index variables: they hold for every element, so they are assumed universally over the index range"""
+        new = E.PENDING_FACTS[before:]
+        del E.PENDING_FACTS[before:]
+        if new and self.st is not None:
+            guard = z3.And(*[z3.And(i >= 0, i < to_z3(s_, "int")) for i, s_ in zip(idx, shape)])
+            self.assume(z3.ForAll(idx, z3.Implies(guard, z3.And(*new))))
 
     def _needs_bcast(self, a, b):
         ra, rb = a.rank, b.rank
@@ -1094,7 +1105,9 @@ class Exec:
             for d in range(arr.rank):
                 sel.append(0 if E._conc(sh[off + d]) == 1 and E._conc(shape[off + d]) != 1 else idx[off + d])
             return arr.sel(*sel)
+        before = len(E.PENDING_FACTS)
         body = fn(pick(a, sa), pick(b, sb))
+        self._quantify_pending(before, idx, shape)
         k = kind or kind_of(body)
         out = Arr(z3.Lambda(idx, to_z3(body, k)), shape, k)
         out.ghost = _merge_ghost(a, b)
